@@ -313,6 +313,9 @@ var vnSkeletons = []struct {
 	{4, []vnS{vnD("class", 0), vnBlk(vnD("const", 1), vnU(2)), vnU(3)}},                     // class / const
 	{5, []vnS{vnFn(0, nil, vnBlk(vnFn(1, nil, vnU(2)), vnU(3))), vnU(4)}},                     // function in block in function
 	{4, []vnS{{k: "func", site: 0, params: []int{1}, defs: []int{2}, body: []vnS{vnU(3)}}}}, // 13: default value naming its own parameter
+	{6, []vnS{vnD("var", 0), {k: "func", site: 1, params: []int{2}, defs: []int{3}, body: []vnS{vnU(4), vnD("var", 5)}}}}, // 14: default refers outward, body uses a later local var
+	{6, []vnS{vnD("var", 0), {k: "forlet", site: 1, body: []vnS{vnU(2), vnD("let", 3), vnBlk(vnU(4))}}, vnU(5)}},       // 15: loop body with use before let
+	{5, []vnS{vnD("var", 0), {k: "arrow", site: -1, params: []int{1}, defs: []int{2}, body: []vnS{vnU(3), vnD("let", 4)}}}}, // 16: arrow default + later let
 }
 
 // VerifScope: all identifier occurrences that denote the same binding share one Var;
